@@ -1504,7 +1504,12 @@ insert_list:
         auto state = th->state;
         if (unlikely(state != states::SLEEPING)) {
         out: // may have thread_yield()-ed
-            if (state == states::READY && th->error_number == 0)
+            // Only from the target's own vCPU: there the target can not run
+            // while we store. From another vCPU a READY target may resume and
+            // consume (clear) its error_number at any moment; a store landing
+            // after that stays pending and fails a later, unrelated sleep.
+            if (state == states::READY && th->error_number == 0 &&
+                CURRENT && CURRENT->vcpu == th->vcpu)
                 th->error_number = error_number;
             return;
         }
